@@ -74,12 +74,24 @@ def all_vals(gea, site, formula):
     return bool(vs) and all(G.ev(formula, v) is True for v in vs)
 
 
+def formula_atoms(f):
+    if f is True or f is False:
+        return set()
+    if f[0] == "is":
+        return {f[1]}
+    out = set()
+    for x in f[1:]:
+        out |= formula_atoms(x)
+    return out
+
+
 def failing_vals(gea, site, formula):
-    return [G.show_val(v) for v in gea.vals_at(site) if G.ev(formula, v) is not True]
+    atoms = formula_atoms(formula)
+    return [G.show_val({k: v for k, v in val.items() if k in atoms}) for val in gea.vals_at(site) if G.ev(formula, val) is not True]
 
 
 # --------------------------------------------------------------------------- S-TXN1
-def s_txn1(rep, W, body, opener=WD.T_TXN, rule="S-TXN1"):
+def s_txn1(rep, W, body, opener=WD.T_TXN, rule="S-TXN1", nested_check=True):
     """One transaction per protocol operation; every StorageTxn call is on that transaction."""
     fn = short_fn(body)
     pv = W.prov(body)
@@ -103,6 +115,8 @@ def s_txn1(rep, W, body, opener=WD.T_TXN, rule="S-TXN1"):
         rep.ob(rule, (fn, "recv", ordinal_key(body, d, bb)), recv == txn,
                "receiver of %s is %s; must be the operation's single transaction %s" % (d.split("::")[-1], P.show(recv), P.show(txn)),
                where(body, bb))
+    if not nested_check:
+        return {"bb": bb0, "txn": txn, "args": args, "n_trait_calls": n}
     # no second way to reach a transaction: nothing reachable from here (other than the opener itself) opens one
     reach = W.reachable_from(body.key, skip_edges={(body.key, bb0)})
     reach.discard(body.key)
@@ -671,14 +685,14 @@ def s_appendonly(rep, W, rule="S-APPENDONLY"):
                     nins += 1
                     g = g or W.gea(b)
                     # the displaced-value result must lead to an error return
-                    atom = ("PRED", "core::option::Option::<T>::is_some", (o.term,))
+                    atom = ("VARIANT", o.term)
                     bad = []
                     for site, term in exits(W, b):
                         if is_error_exit(term):
                             continue
                         for val in g.vals_at(site):
-                            if val.get(atom) != frozenset([False]):
-                                bad.append(G.show_val(val))
+                            if val.get(atom) != frozenset(["err"]):
+                                bad.append(G.show_val({atom: val.get(atom)} if atom in val else {}))
                     rep.ob(rule, ("mem", short_fn(b), o.logical + ".insert", "duplicate-is-error"), not bad,
                            "Ok is returned only when %s.insert displaced nothing (a duplicate key is an error); offending: %s" % (o.logical, bad[:1]),
                            where(b, o.bb))
@@ -811,3 +825,452 @@ def s_clientid(rep, W, rule="S-CLIENTID"):
         rep.ob(rule, (fn, "ok-payload"), m(want, term) is not None,
                "client_id_header returns %s; must be Uuid::parse_str(headers[\"X-Client-Id\"].to_str())" % P.show(term), where(hb))
     rep.floor(rule, "client_id_header Ok exits", nok, 1)
+
+
+# =========================================================================== more shared obligations
+def exit_kinds(W, body, classify):
+    """[(site, resolved term, valuation, kind)] for every (exit, valuation); multi-def temporaries in
+    the exit value are resolved path-sensitively."""
+    g = W.gea(body)
+    out = []
+    for site, term in exits(W, body):
+        for val in g.vals_at(site):
+            rt = g.resolve_phis(term, val)
+            out.append((site, rt, val, classify(rt)))
+    return out
+
+
+def compatible(val, assignment):
+    """A partial valuation is compatible with a total assignment of some atoms."""
+    for atom, v in assignment.items():
+        vs = val.get(atom)
+        if vs is not None and v not in vs:
+            return False
+    return True
+
+
+# --------------------------------------------------------------------------- S-READONLY / S-CLASS
+def method_class(W, mth):
+    """(class per backend, detail) derived from the effect summaries."""
+    ss, un, uc, inst = sql_world(W)
+    out = {}
+    sb = W.impl_method("sqlite", mth)
+    verbs = sorted(set(i.stmt["verb"] for i in inst if i.owner.key == sb.key and i.stmt))
+    if any(v in ("INSERT", "UPDATE", "DELETE", "DROP", "ALTER", "CREATE TABLE", "CREATE INDEX") for v in verbs):
+        out["sqlite"] = "write"
+    elif "COMMIT" in verbs:
+        out["sqlite"] = "commit"
+    elif verbs and all(v == "SELECT" for v in verbs):
+        out["sqlite"] = "read"
+    else:
+        out["sqlite"] = "none:" + ",".join(verbs)
+    mb = W.impl_method("inmemory", mth)
+    ops, stores = E.inmem_summary(W, mb)
+    data_stores = [s for s in stores if not (m(self_field("written"), s.target) is not None or m(self_field("committed"), s.target) is not None)]
+    flag_commit = [s for s in stores if m(self_field("committed"), s.target) is not None]
+    if any(o.write for o in ops) or data_stores:
+        out["inmemory"] = "write"
+    elif flag_commit:
+        out["inmemory"] = "commit"
+    elif ops:
+        out["inmemory"] = "read"
+    else:
+        out["inmemory"] = "none"
+    return out, {"sqlite_verbs": verbs, "inmemory_map_ops": ["%s.%s" % (o.field, o.method) for o in ops],
+                 "inmemory_stores": [P.show(s.target) for s in stores]}
+
+
+def s_class(rep, W, rule="S-CLASS"):
+    """The read / write / commit class table is re-derived from both back ends' effect summaries."""
+    for mth in WD.ALL_METHODS:
+        want = "write" if mth in WD.WRITE_METHODS else ("commit" if mth == WD.COMMIT_METHOD else "read")
+        got, detail = method_class(W, mth)
+        rep.ob(rule, (mth, "class"), got.get("sqlite") == want and got.get("inmemory") == want,
+               "StorageTxn::%s is %s-class; derived: sqlite=%s in-memory=%s" % (mth, want, got.get("sqlite"), got.get("inmemory")),
+               sample=detail)
+    for backend in ("sqlite", "inmemory"):
+        b = W.impl_storage_txn(backend)
+        if backend == "sqlite":
+            ss, un, uc, inst = sql_world(W)
+            verbs = sorted(set(i.stmt["verb"] for i in inst if i.owner.key == b.key and i.stmt))
+            rep.ob(rule, ("Storage::txn", backend), verbs == ["BEGIN"], "Storage::txn (sqlite) issues %s; only BEGIN expected" % verbs)
+        else:
+            ops, stores = E.inmem_summary(W, b)
+            rep.ob(rule, ("Storage::txn", backend), not ops and not stores, "Storage::txn (in-memory) touches no stored state")
+    # the trait has exactly these methods
+    tr = W.prog.traits.get(WD.STORAGE_TXN)
+    names = sorted(i["name"] for i in tr["items"]) if tr else []
+    rep.ob(rule, ("StorageTxn", "method-set"), names == sorted(WD.ALL_METHODS),
+           "StorageTxn methods: %s; the class table covers %s" % (names, sorted(WD.ALL_METHODS)))
+
+
+def local_static_closure(W, body):
+    """Bodies reachable from `body` through statically resolved workspace calls and closures, not
+    descending into storage trait implementations (those are summarised by class)."""
+    cg = W.callgraph()
+    seen = set()
+    st = [body.key]
+    while st:
+        k = st.pop()
+        if k in seen:
+            continue
+        seen.add(k)
+        for bb, k2 in cg.get(k, ()):
+            b2 = W.prog.bodies[k2]
+            if b2.j.get("impl_trait") in (WD.STORAGE_TXN, WD.STORAGE):
+                continue
+            st.append(k2)
+    return seen
+
+
+def s_readonly_op(rep, W, opname, rule="S-READONLY"):
+    body = W.op(opname)
+    bad = []
+    nreads = 0
+    for k in local_static_closure(W, body):
+        b = W.prog.bodies[k]
+        for bb, t in b.calls():
+            d = t["callee"].get("def", "")
+            if d.startswith(WD.STORAGE_TXN + "::"):
+                mth = d.split("::")[-1]
+                if mth in WD.READ_METHODS:
+                    nreads += 1
+                else:
+                    bad.append((b.deff, mth, b.line_of_block(bb)))
+    rep.ob(rule, (short_fn(body), "only-read-class-calls"), not bad,
+           "Server::%s (and what it statically calls) invokes only read-class storage methods; others: %s" % (opname, bad or "none"), where(body))
+    rep.floor(rule, "Server::%s read-class calls" % opname, nreads, 2, where(body))
+
+
+# --------------------------------------------------------------------------- C01.KEY
+def c01_key(rep, W, rule="C01.KEY"):
+    ss, un, uc, inst = sql_world(W)
+    # ---- sqlite writer
+    sb = W.impl_method("sqlite", "add_version")
+    fn = short_fn(sb)
+    ins = [i for i in inst if i.owner.key == sb.key and i.stmt and i.stmt["verb"] == "INSERT" and i.stmt["table"] == "versions"]
+    upd = [i for i in inst if i.owner.key == sb.key and i.stmt and i.stmt["verb"] == "UPDATE" and i.stmt["table"] == "clients"]
+    rep.ob(rule, (fn, "one-insert-one-update"), len(ins) == 1 and len(upd) == 1, "%d INSERT INTO versions, %d UPDATE clients" % (len(ins), len(upd)), where(sb))
+    want_ins = {"version_id": stored_uuid(("param", 2, ANY)), "client_id": stored_uuid(self_field("client_id")),
+                "parent_version_id": stored_uuid(("param", 3, ANY)), "history_segment": ("param", 4, ANY)}
+    for i in ins:
+        cols = dict(i.stmt["writes"])
+        for col, p_ in want_ins.items():
+            e = cols.get(col)
+            got = i.param(e[1]) if e and e[0] == "param" else None
+            rep.ob(rule, (fn, "insert", col), got is not None and m(p_, got) is not None,
+                   "column versions.%s is bound to %s" % (col, P.show(got) if got else e), i.where())
+        rep.ob(rule, (fn, "insert", "columns"), set(cols) == set(want_ins), "INSERT lists columns %s" % sorted(cols), i.where(), nontrivial=False)
+    for i in upd:
+        cols = dict(i.stmt["writes"])
+        e = cols.get("latest_version_id")
+        got = i.param(e[1]) if e and e[0] == "param" else None
+        rep.ob(rule, (fn, "update", "latest_version_id"), got is not None and m(stored_uuid(("param", 2, ANY)), got) is not None,
+               "clients.latest_version_id is set to %s; must be the new version id" % (P.show(got) if got else e), i.where())
+    # both statements succeed before Ok is returned
+    g = W.gea(sb)
+    pvb = W.prov(sb)
+    for site, term in exits(W, sb):
+        if is_error_exit(term):
+            continue
+        for i in ins + upd:
+            atom = variant_atom(pvb.def_term((i.site.bb, "T")))
+            rep.ob(rule, (fn, "ok-after", i.stmt["verb"]), all_vals(g, site, ("is", atom, "ok")),
+                   "add_version returns Ok only after its %s succeeded" % i.stmt["verb"], i.where())
+    # ---- sqlite readers
+    for mth, col in (("get_version_by_parent", "parent_version_id"), ("get_version", "version_id")):
+        rb = W.impl_method("sqlite", mth)
+        fnr = short_fn(rb)
+        sel = [i for i in inst if i.owner.key == rb.key and i.stmt and i.stmt["verb"] == "SELECT"]
+        rep.ob(rule, (fnr, "one-select"), len(sel) == 1 and sel[0].stmt["table"] == "versions", "%d SELECT(s) on versions" % len(sel), where(rb))
+        for i in sel:
+            w = dict((c, e) for c, e in i.stmt["where"] if c)
+            e = w.get(col)
+            got = i.param(e[1]) if e and e[0] == "param" else None
+            rep.ob(rule, (fnr, "lookup-key", col), got is not None and m(stored_uuid(("param", 2, ANY)), got) is not None and set(w) == {col, "client_id"},
+                   "%s looks up WHERE %s = %s (conjuncts: %s)" % (mth, col, P.show(got) if got else e, sorted(w)), i.where())
+            # row -> Version field agreement
+            if i.site.closure is not None:
+                for site, term in exits(W, i.site.closure):
+                    if is_error_exit(term):
+                        continue
+                    mm = m(pat.adt("Result", "Ok", ("0", pat.adt("Version", "Version", ("version_id", V("v")), ("parent_version_id", V("p")), ("history_segment", V("h"))))), term)
+                    okf = False
+                    if mm is not None:
+                        def colof(t):
+                            t2 = t
+                            if t2[0] == "field" and t2[2] == "0":
+                                t2 = t2[1]
+                            if t2[0] == "ok":
+                                t2 = t2[1]
+                            if t2[0] == "call" and t2[1] == "rusqlite::row::Row::<'stmt>::get" and t2[3][1][0] == "const":
+                                return t2[3][1][2]
+                            return None
+                        okf = (colof(mm["v"]), colof(mm["p"]), colof(mm["h"])) == ("version_id", "parent_version_id", "history_segment")
+                    rep.ob(rule, (fnr, "row-to-Version"), okf, "row mapping builds %s; each Version field must come from the same-named column" % P.show(term)[:200], i.where())
+            sel_cols = set(i.stmt["select"])
+            rep.ob(rule, (fnr, "select-list"), {"version_id", "parent_version_id", "history_segment"} <= sel_cols or "*" in sel_cols,
+                   "select list %s" % sorted(sel_cols), i.where(), nontrivial=False)
+        # the method returns the helper's result unchanged
+        for site, term in exits(W, rb):
+            t2 = term
+            if t2[0] == "agg":
+                mm = m(pat.adt("Result", "Ok", ("0", V("x"))), t2)
+                t2 = mm["x"] if mm else t2
+            while t2[0] == "ok":
+                t2 = t2[1]
+            t2 = P.strip_ok_preserving(t2)
+            okr = t2[0] == "call" and (t2[1].endswith("::get_version_impl") or t2[1] == "rusqlite::OptionalExtension::optional")
+            rep.ob(rule, (fnr, "returns-query-result"), okr or is_error_exit(term), "%s returns %s" % (mth, P.show(term)[:160]), where(rb), nontrivial=False)
+    # ---- in-memory writer
+    mb = W.impl_method("inmemory", "add_version")
+    fnm = short_fn(mb)
+    ops, stores = E.inmem_summary(W, mb)
+    cid = self_field("client_id")
+    ci = [o for o in ops if o.logical == "children" and o.method == "insert"]
+    vi = [o for o in ops if o.logical == "versions" and o.method == "insert"]
+    rep.ob(rule, (fnm, "children.insert"), len(ci) == 1 and m(pat.tup(cid, ("param", 3, ANY)), ci[0].key) is not None and m(("param", 2, ANY), ci[0].value) is not None,
+           "child index insert: key %s -> %s; must be (client, parent) -> new id" % (P.show(ci[0].key) if ci else None, P.show(ci[0].value) if ci else None), where(mb))
+    wantv = pat.adt("Version", "Version", ("version_id", ("param", 2, ANY)), ("parent_version_id", ("param", 3, ANY)), ("history_segment", ("param", 4, ANY)))
+    rep.ob(rule, (fnm, "versions.insert"), len(vi) == 1 and m(pat.tup(cid, ("param", 2, ANY)), vi[0].key) is not None and m(wantv, unmut(vi[0].value)) is not None,
+           "version insert: key %s -> %s" % (P.show(vi[0].key) if vi else None, P.show(vi[0].value)[:120] if vi else None), where(mb))
+    ls = [s for s in stores if s.target[0] == "field" and s.target[2] == "latest_version_id"]
+    okl = len(ls) == 1 and m(("param", 2, ANY), ls[0].value) is not None and \
+        m(("ok", call(E.HM + "get_mut", ("field", self_field("guard"), ANY), cid)), ls[0].target[1]) is not None
+    rep.ob(rule, (fnm, "latest-moved"), okl, "latest pointer store: %s := %s" % (P.show(ls[0].target) if ls else None, P.show(ls[0].value) if ls else None), where(mb))
+    # ---- in-memory readers
+    rb = W.impl_method("inmemory", "get_version_by_parent")
+    ops, _ = E.inmem_summary(W, rb)
+    cg = [o for o in ops if o.logical == "children" and o.method == "get"]
+    vg = [o for o in ops if o.logical == "versions" and o.method == "get"]
+    okc = len(cg) == 1 and m(pat.tup(cid, ("param", 2, ANY)), cg[0].key) is not None
+    okv = len(vg) == 1 and okc and m(pat.tup(cid, ("ok", cg[0].term)), vg[0].key) is not None
+    rep.ob(rule, (short_fn(rb), "child-then-version"), okc and okv,
+           "child lookup key %s, then version lookup key %s" % (P.show(cg[0].key) if cg else None, P.show(vg[0].key) if vg else None), where(rb))
+    rb2 = W.impl_method("inmemory", "get_version")
+    ops2, _ = E.inmem_summary(W, rb2)
+    vg2 = [o for o in ops2 if o.logical == "versions" and o.method == "get"]
+    rep.ob(rule, (short_fn(rb2), "version-lookup"), len(vg2) == 1 and m(pat.tup(cid, ("param", 2, ANY)), vg2[0].key) is not None,
+           "version lookup key %s" % (P.show(vg2[0].key) if vg2 else None), where(rb2))
+    for b_, o_ in ((rb, vg), (rb2, vg2)):
+        if not o_:
+            continue
+        hit = False
+        for site, term in exits(W, b_):
+            mm = m(pat.adt("Result", "Ok", ("0", V("x"))), term)
+            if mm is not None and mm["x"] == o_[0].term:
+                hit = True
+        rep.ob(rule, (short_fn(b_), "returns-looked-up-record"), hit, "the looked-up Version is returned unchanged (cloned)", where(b_))
+
+
+# --------------------------------------------------------------------------- "latest" writers, counter bookkeeping
+def latest_writers(rep, W, rule="C01.LATEST"):
+    ss, un, uc, inst = sql_world(W)
+    for i in inst:
+        if i.stmt is None:
+            continue
+        cols = [c for c, e in i.stmt["writes"]]
+        if "latest_version_id" in cols:
+            mth = i.owner.deff.split("::")[-1]
+            rep.ob(rule, ("sql", short_fn(i.owner), i.stmt["verb"]), mth in ("add_version", "new_client"),
+                   "clients.latest_version_id is written by %s; only add_version and new_client may move the latest pointer" % mth, i.where())
+    n = 0
+    for mth in WD.ALL_METHODS:
+        b = W.impl_method("inmemory", mth)
+        ops, stores = E.inmem_summary(W, b)
+        for s in stores:
+            if s.target[0] == "field" and s.target[2] == "latest_version_id":
+                n += 1
+                rep.ob(rule, ("mem", short_fn(b), "store"), mth == "add_version", "latest_version_id stored in %s" % mth, where(b, line=s.line))
+        for o in ops:
+            if o.logical == "clients" and o.write and o.method != "get_mut":
+                rep.ob(rule, ("mem", short_fn(b), "clients." + o.method), mth == "new_client" and o.method == "insert",
+                       "clients map %s in %s; only new_client may insert a client record" % (o.method, mth), where(b, o.bb))
+    rep.floor(rule, "in-memory latest stores", n, 1)
+
+
+def c02_cnt(rep, W, rule="C02.CNT"):
+    """versions-since counter: +1 per stored version iff a snapshot exists; set by set_snapshot; nothing else."""
+    ss, un, uc, inst = sql_world(W)
+    nw = 0
+    for i in inst:
+        if i.stmt is None:
+            continue
+        for c, e in i.stmt["writes"]:
+            if c != "versions_since_snapshot":
+                continue
+            nw += 1
+            mth = i.owner.deff.split("::")[-1]
+            if mth == "add_version":
+                rep.ob(rule, ("sql", "add_version", "increment"), e == ("colop", "versions_since_snapshot", "+", "1"),
+                       "add_version sets versions_since_snapshot = %s; must be versions_since_snapshot + 1 (NULL-preserving: no snapshot, no count)" % (e,), i.where())
+            elif mth == "set_snapshot":
+                got = i.param(e[1]) if e[0] == "param" else None
+                rep.ob(rule, ("sql", "set_snapshot", "from-argument"), got is not None and m(("field", ("param", 2, ANY), "versions_since"), got) is not None,
+                       "set_snapshot stores versions_since_snapshot = %s; must be snapshot.versions_since" % (P.show(got) if got else e,), i.where())
+            else:
+                rep.fail(rule, ("sql", mth, "unexpected-writer"), "versions_since_snapshot written by %s" % mth, i.where())
+    rep.floor(rule, "sql writers of versions_since_snapshot", nw, 2)
+    mb = W.impl_method("inmemory", "add_version")
+    ops, stores = E.inmem_summary(W, mb)
+    g = W.gea(mb)
+    cs = [s for s in stores if s.target[0] == "field" and s.target[2] == "versions_since"]
+    okc = False
+    if len(cs) == 1:
+        v = cs[0].value
+        if v[0] == "field" and v[2] == "0":
+            v = v[1]
+        okc = v[0] == "binop" and v[1] in ("AddWithOverflow", "Add") and v[2] == cs[0].target and m(pat.const(val=1), v[3]) is not None
+        # the snapshot the counter belongs to is the client's own: target = ok(client.snapshot).versions_since
+        snapopt = cs[0].target[1]
+        okc = okc and snapopt[0] == "ok" and snapopt[1][0] == "field" and snapopt[1][2] == "snapshot"
+    rep.ob(rule, ("mem", "add_version", "increment"), okc,
+           "in-memory add_version counter store: %s := %s; must be snapshot.versions_since + 1 inside `if let Some(snapshot)`"
+           % (P.show(cs[0].target) if cs else None, P.show(cs[0].value)[:120] if cs else None), where(mb))
+    # the increment happens on every path to Ok where a snapshot exists
+    if cs:
+        sb_ = cs[0].site[0]
+        snap_atom = ("VARIANT", cs[0].target[1][1])
+        for site, term in exits(W, mb):
+            if is_error_exit(term):
+                continue
+            passed = not avoids_block_reaching(g, sb_, site[0], lambda v: v.get(snap_atom) == frozenset(["ok"]))
+            rep.ob(rule, ("mem", "add_version", "on-every-path-with-snapshot"), passed,
+                   "every Ok return with an existing snapshot passes the counter increment", where(mb))
+    for mth in WD.ALL_METHODS:
+        if mth == "add_version":
+            continue
+        b = W.impl_method("inmemory", mth)
+        _, st2 = E.inmem_summary(W, b)
+        for s in st2:
+            if s.target[0] == "field" and s.target[2] == "versions_since":
+                rep.fail(rule, ("mem", mth, "unexpected-writer"), "versions_since written in %s" % mth, where(b, line=s.line))
+    sb2 = W.impl_method("inmemory", "set_snapshot")
+    _, st3 = E.inmem_summary(W, sb2)
+    ssn = [s for s in st3 if s.target[0] == "field" and s.target[2] == "snapshot"]
+    rep.ob(rule, ("mem", "set_snapshot", "from-argument"),
+           len(ssn) == 1 and m(pat.adt("Option", "Some", ("0", ("param", 2, ANY))), ssn[0].value) is not None,
+           "in-memory set_snapshot stores client.snapshot := %s; must be Some(snapshot argument)" % (P.show(ssn[0].value) if ssn else None), where(sb2))
+
+
+def avoids_block_reaching(g, avoid_bb, exit_bb, cond):
+    """True iff some product path from entry reaches a state at exit_bb satisfying cond(valuation)
+    without passing block avoid_bb."""
+    start = (0, frozenset())
+    seen = {start}
+    st = [start]
+    while st:
+        x = st.pop()
+        if x[0] == exit_bb and cond(dict(x[1])):
+            return True
+        for y in g.edges.get(x, ()):
+            if y[0] == avoid_bb or y in seen:
+                continue
+            seen.add(y)
+            st.append(y)
+    return False
+
+
+# --------------------------------------------------------------------------- C03 extras
+INTERIOR_MUT = ("Cell<", "RefCell<", "Mutex<", "RwLock<", "Atomic", "OnceCell<", "OnceLock<", "Lazy<", "UnsafeCell<")
+
+
+def c03_nostate(rep, W, rule="C03.NOSTATE"):
+    for name in ("server::Server", "api::ServerState", "server::ServerConfig", "WebServer"):
+        a = W.prog.adt(name)
+        if a is None:
+            rep.fail(rule, (name, "anchor"), "struct %s not found" % name)
+            continue
+        bad = [(f["name"], f["ty"]) for v in a["variants"] for f in v["fields"] if any(x in f["ty"] for x in INTERIOR_MUT)]
+        rep.ob(rule, (name, "no-interior-mutability"), not bad,
+               "fields of %s with interior mutability (state shared between requests outside the storage): %s" % (name, bad or "none"),
+               sample={"fields": [(f["name"], f["ty"]) for v in a["variants"] for f in v["fields"]]})
+    rep.ob(rule, ("workspace", "no-statics"), not W.prog.statics, "static items: %s" % ([s["def"] for s in W.prog.statics] or "none"))
+    tl = []
+    for b in W.prog.bodies.values():
+        for blk in b.blocks:
+            for s in blk["stmts"]:
+                if s["k"] == "assign" and s["rv"]["k"] == "threadlocal":
+                    tl.append(b.deff)
+    rep.ob(rule, ("workspace", "no-thread-locals"), not tl, "thread-local accesses: %s" % (tl or "none"))
+    for opn in WD.OPS:
+        b = W.op(opn)
+        rep.ob(rule, (short_fn(b), "takes-&self"), b.locals[1]["ty"] == "&" + WD.SERVER_TY, "receiver type %s" % b.locals[1]["ty"], where(b), nontrivial=False)
+    # no workspace code tunes the lock-wait budget
+    bt = W.bodies_calling(lambda c: c.get("def", "").endswith("::busy_timeout") or c.get("def", "").endswith("::busy_handler"))
+    rep.ob(rule, ("workspace", "default-busy-timeout"), not bt, "calls changing the SQLite busy timeout: %s" % ([b.deff for b, _, _ in bt] or "none"))
+
+
+def c03_loop(rep, W, rule="C03.LOOP"):
+    body = W.handler("add_version")
+    fn = short_fn(body)
+    g = W.gea(body)
+    ops = sites_of(body, WD.op("add_version"))
+    commits = sites_of(body, WD.tm("commit"))
+    if len(ops) != 1 or len(commits) != 1:
+        rep.fail(rule, (fn, "anchor"), "expected one Server::add_version call and one commit in the handler (found %d, %d)" % (len(ops), len(commits)), where(body))
+        return
+    opbb, cbb = ops[0][0], commits[0][0]
+    pv = W.prov(body)
+    catom = variant_atom(pv.def_term((cbb, "T")))
+    exit_blocks = set(s[0] for s, _ in exits(W, body))
+    # once the creation transaction is open, every path either propagates an error or re-enters the
+    # whole operation: no response is produced from the creation block
+    tsites = sites_of(body, WD.SERVER_TXN)
+    err_blocks = set(s[0] for s, t in exits(W, body) if is_error_exit(t))
+    starts = set()
+    for tb, _ in tsites:
+        for s_ in g.states_at_block(tb):
+            starts |= g.edges.get(s_, set())
+    seen = set()
+    st = list(starts)
+    escaped = None
+    reenters = False
+    while st:
+        x = st.pop()
+        if x in seen:
+            continue
+        seen.add(x)
+        if x[0] == opbb:
+            reenters = True
+            continue
+        if x[0] in exit_blocks:
+            if x[0] not in err_blocks:
+                escaped = x[0]
+                break
+            continue
+        for y in g.edges.get(x, ()):
+            st.append(y)
+    rep.ob(rule, (fn, "retry-reenters-op"), bool(starts) and reenters and escaped is None,
+           "after the creation block every non-error path re-enters Server::add_version (no response is produced from the creation block)",
+           where(body, cbb))
+    # the creation block is the only way round the loop
+    succ = set()
+    for s in g.states_at_block(opbb):
+        succ |= g.edges.get(s, set())
+    seen = set()
+    st = list(succ)
+    other = False
+    gate = set(tb for tb, _ in tsites)
+    while st:
+        x = st.pop()
+        if x in seen or x[0] in gate:
+            continue
+        seen.add(x)
+        if x[0] == opbb:
+            other = True
+            break
+        for y in g.edges.get(x, ()):
+            st.append(y)
+    rep.ob(rule, (fn, "single-retry-path"), not other, "the operation is re-run only through the client-creation transaction", where(body, opbb))
+    # creation block is entered only under Err(NoSuchClient)
+    opterm = pv.def_term((opbb, "T"))
+    a1 = variant_atom(opterm)
+    a2 = ("VARIANT", ("err", opterm))
+    ncs = sites_of(body, WD.SERVER_TXN)
+    for bb, t in ncs:
+        f = ("and", ("is", a1, "err"), ("is", a2, "NoSuchClient"))
+        rep.ob(rule, (fn, "creation-only-on-NoSuchClient"), all_vals(g, (bb, "T"), f),
+               "the creation transaction is opened only when Server::add_version returned Err(NoSuchClient); offending: %s" % failing_vals(g, (bb, "T"), f)[:1],
+               where(body, bb))
+    rep.floor(rule, "creation-block txn sites", len(ncs), 1)
